@@ -16,6 +16,9 @@ ALPHA = ["a", " ", ".", "\"", "?", "\n"]
 
 
 def classify(kf, rec):
+    import common
+    if common.repro_only(kf, rec):
+        return True
     c = rec["case"]
     cl = kf.get("classifier")
     if cl == "ellipsis-space-creates-autolink":
@@ -177,6 +180,12 @@ def run(chk: Check) -> None:
         if i < 2:
             chk.sample({"doc": doc[:200], "opts": o, "on": on[:200]})
     chk.port_stat("spec: reformat_text(ellipses on) vs off", nd, nbd)
+    # listed with a fixed reproducer only (D-88): a URL whose scheme the autolink extension does not know
+    doc = "see s3://bucket/v1...v2 now\n"
+    off, on = reformat_text(doc, ellipses=False), reformat_text(doc, ellipses=True)
+    chk.count()
+    if "s3://bucket/v1...v2" not in on:
+        chk.fail("property", {"doc": doc, "opts": {"ellipses": True}, "off": off, "on": on, "repro": "D-88"}, "URL changed: " + repr(on), classify)
 
 
 def replay(path: str) -> int:
